@@ -9,7 +9,7 @@ import re, os
 from xf import AnchorLost
 
 HDR = ("use vstd::prelude::*;\n#[allow(unused_imports)]\nuse crate::vx::*;\n"
-       "#[allow(unused_imports)]\nuse crate::dns::wire_format::*;\n#[allow(unused_imports)]\nuse vstd::std_specs::iter::IteratorSpec;\n"
+       "#[allow(unused_imports)]\nuse crate::dns::wire_format::*;\n#[allow(unused_imports)]\nuse vstd::std_specs::iter::IteratorSpec;\n#[allow(unused_imports)]\nuse vstd::std_specs::hash::*;\n"
        "#[allow(unused_imports)]\nuse crate::dns::*;\n#[allow(unused_imports)]\nuse crate::dns::rdata::*;\n#[allow(unused_imports)]\nuse crate::dns::header::*;\n"
        "verus!{ broadcast use crate::vx::vx_axioms; }\n")
 
@@ -70,7 +70,7 @@ def apply(c):
     i = s.index("pub(crate) trait WireFormat")
     from xf import attrs_start
     k = attrs_start(s, i)
-    s = s[:k] + "use vstd::prelude::*;\nuse crate::vx::*;\nverus!{\n" + s[k:].rstrip() + "\n}\n"
+    s = s[:k] + "use vstd::prelude::*;\nuse crate::vx::*;\n#[allow(unused_imports)]\nuse crate::dns::name::*;\nverus!{\n" + s[k:].rstrip() + "\n}\n"
     s = s.replace("pub(crate) trait WireFormat", "pub trait WireFormat")  # R4
     c.wr('dns/wire_format.rs', s)
     c.log.append(('rewrite', 'dns/wire_format.rs', 'R4 x1'))
@@ -81,6 +81,19 @@ def apply(c):
     spec fn wf_enc(&self) -> Seq<u8>;
     /// ghost: `v` is what an RFC decoder reads at data[p..] and p2 is where it stops
     spec fn wf_dec(data: Seq<u8>, p: int, v: &Self, p2: int) -> bool where Self: Sized;
+    /// ghost: the bytes emitted by write_to / write_compressed_to at data[p..p2] decode to `v`
+    /// (= wf_dec, except for RData whose parser starts at the 10-byte record header)
+    spec fn wf_cdec(data: Seq<u8>, p: int, v: &Self, p2: int) -> bool where Self: Sized;
+    /// ghost: the value is in the image of the parser (e.g. a TXT has at least one string, an opaque record does not carry
+    /// the code of a typed one): only such values can read back identically
+    spec fn wf_canon(&self) -> bool;
+    /// ghost: the RFC of this type forbids compressing the names it contains (SRV NAPTR KX RRSIG NSEC IPSECKEY SVCB HTTPS)
+    spec fn wf_nocomp() -> bool where Self: Sized;
+    /// round trip: the encoding of a value, appended to any prefix, decodes to that value
+    proof fn lemma_rt(&self, pre: Seq<u8>) where Self: Sized
+        requires self.wf_ok(), self.wf_canon(),
+        ensures Self::wf_cdec(pre + self.wf_enc(), pre.len() as int, self, (pre + self.wf_enc()).len() as int), // @C02:decode-of-encode,C03:uncompressed-form-decodes
+    ;
 """)
     c.contract('dns/wire_format.rs', "pub trait WireFormat<'a> {", 'parse', """
         requires *old(position) <= data.len(), data.len() <= isize::MAX,
@@ -97,8 +110,47 @@ def apply(c):
         requires self.wf_ok(),
         ensures r == self.wf_enc().len(), // @C04:len-is-encoded-size
 """)
-    # default method: verified in compress unit; here only shape
-    c.mark('dns/wire_format.rs', "pub trait WireFormat<'a> {", 'write_compressed_to')
+    # default method of write_compressed_to = write_to: must meet the same contract as the compressing overrides
+    s2 = c.rd('dns/wire_format.rs')
+    old_sig = """    ) -> crate::Result<()> {
+        self.write_to(out)
+    }"""
+    if old_sig not in s2:
+        raise AnchorLost('dns/wire_format.rs: default write_compressed_to body lost')
+    new_sig = """    ) -> (r: crate::Result<()>)
+        where Self: Sized
+        requires
+            self.wf_ok(), self.wf_canon(), at_end(old(out)), io_buf(old(out)).len() + self.wf_enc().len() <= 0x7fff_ffff,
+            refs_ok(old(_name_refs)@, io_buf(old(out))),
+        ensures
+            r is Ok ==> io_buf(final(out)).len() >= io_buf(old(out)).len()
+                && io_buf(final(out)).subrange(0, io_buf(old(out)).len() as int) =~= io_buf(old(out)), // @C04:only-appends
+            r is Ok ==> at_end(final(out)),
+            r is Ok ==> refs_ok(final(_name_refs)@, io_buf(final(out))), // @C03:suffix-table-valid,C07:suffix-table-valid
+            r is Ok ==> Self::wf_cdec(io_buf(final(out)), io_buf(old(out)).len() as int, self, io_buf(final(out)).len() as int), // @C03:compressed-form-decodes,C07:pointers-expand-to-the-name
+            r is Ok ==> io_buf(final(out)).len() - io_buf(old(out)).len() <= self.wf_enc().len(), // @C03:never-longer
+            r is Ok ==> (Self::wf_nocomp() ==> io_buf(final(out)) =~= io_buf(old(out)) + self.wf_enc()), // @C07:written-in-full
+    {
+        proof {
+            self.lemma_rt(io_buf(out));
+            lemma_refs_append(_name_refs@, io_buf(out), self.wf_enc());
+        }
+        self.write_to(out)
+    }"""
+    c.wr('dns/wire_format.rs', s2.replace(old_sig, new_sig))
+    c.log.append(('contract', 'dns/wire_format.rs', 'trait WireFormat / write_compressed_to (default method)'))
+    c.sub('dns/wire_format.rs', "verus!{\n", """verus!{
+/// post-state of a compressing writer: only appended bytes, stream at its end, reference table still valid,
+/// the appended bytes decode to `v` (transparency) and are never longer than the uncompressed encoding
+pub open spec fn cw_ok<'a, V: WireFormat<'a>, T: ?Sized>(o0: &T, o1: &T, refs1: Map<&'a [Label<'a>], usize>, v: &V) -> bool {
+    let m0 = io_buf(o0); let m1 = io_buf(o1);
+    &&& m1.len() >= m0.len() && m1.subrange(0, m0.len() as int) =~= m0
+    &&& at_end(o1)
+    &&& refs_ok(refs1, m1)
+    &&& V::wf_cdec(m1, m0.len() as int, v, m1.len() as int)
+    &&& m1.len() - m0.len() <= v.wf_enc().len()
+}
+""", count=1)
 
     # ---------------------------------------------------------------- name.rs
     add_header(c, 'dns/name.rs')
